@@ -161,6 +161,36 @@ func (w *World) addContractFile(cf *ContractFile) {
 			if old.Kind != "func" && c.Kind == "func" {
 				keep, other = c, old
 			}
+			if keep.Kind == "trusted" && other.Kind == "trusted" {
+				// two trusted declarations of one function: both sets of assumptions apply; the
+				// frame is the union of what either allows
+				keep.Requires = append(keep.Requires, other.Requires...)
+				keep.Ensures = append(keep.Ensures, other.Ensures...)
+				switch {
+				case !keep.HasFrame || !other.HasFrame:
+					keep.HasFrame, keep.Frame = false, nil
+				default:
+					var fr []string
+					for _, f := range append(append([]string{}, keep.Frame...), other.Frame...) {
+						if f != "nothing" {
+							fr = append(fr, f)
+						}
+					}
+					if len(fr) == 0 {
+						fr = []string{"nothing"}
+					}
+					keep.Frame = fr
+				}
+				for k, v := range other.Opts {
+					keep.Opts[k] = v
+				}
+				w.Contracts[name] = keep
+				continue
+			}
+			if keep.Kind == "func" && other.Kind == "trusted" {
+				// extra assumed clauses about a verified function are kept as assumed postconditions
+				keep.AssumedEnsures = append(keep.AssumedEnsures, other.Ensures...)
+			}
 			if !keep.HasFrame && other.HasFrame {
 				// the frame comes from a trusted declaration: callers rely on it, the body is not
 				// checked against it (reported as an assumption)
@@ -173,7 +203,7 @@ func (w *World) addContractFile(cf *ContractFile) {
 	}
 	for _, g := range cf.Ghosts {
 		t := g.Type
-		if !strings.Contains(t, "/") && cf.Pkg != "" && !strings.Contains(t, ".") {
+		if t != "*" && !strings.Contains(t, "/") && cf.Pkg != "" && !strings.Contains(t, ".") {
 			t = cf.Pkg + "." + t
 		}
 		g.Type = t
